@@ -1,5 +1,5 @@
 """C09 - padding schemes.  MC: sys/Padding.tla (bit level, every bit string) + MC_PadBytes (byte-level
-spec = bit-level spec) + MC_PadHist (all call histories).  Bind: every history and the single-call
+spec = bit-level spec) + MC_PadLong (compressed evaluation of long messages = plain evaluation) + MC_PadHist (all call histories).  Bind: every history and the single-call
 length grid replayed on the real padding objects, every step judged by Trace_Padding."""
 import json, os
 import core
@@ -51,6 +51,30 @@ def run_iter(obj, m, bitlen, padding):
             ev['cnts'].append(limbs(obj.bitcnt, 8))
     except Exception as e:
         ev['raised'] = type(e).__name__
+    ev['after'] = dict(bitcnt=limbs(obj.bitcnt, 8), padcnt=int(obj.padcnt), padflag=bool(obj.padflag))
+    return ev
+
+def run_iter_long(obj, Bb, pat, K, tail, bitlen, padding):
+    """a message of K copies of one block and a short tail (up to a megabyte): the output is recorded in compressed form - the
+    maximal leading run of equal blocks, the maximal leading arithmetic progression (step 8B) of counters, the rest literally"""
+    m = pat * K + tail
+    ev = dict(op='iterlong', pat=B(pat), K=K, tail=B(tail), bitlen=-1 if bitlen is None else bitlen, padding=padding, raised='',
+              bhead=dict(b=[], n=0), brest=[], chead=dict(first=limbs(0, 8), n=0), crest=[])
+    kw = {'padding': padding}
+    if bitlen is not None: kw['bitlen'] = bitlen
+    blocks = []; cnts = []
+    try:
+        for blk in obj.iterblocks(m, **kw):
+            blocks.append(bytes(blk)); cnts.append(int(obj.bitcnt))
+    except Exception as e:
+        ev['raised'] = type(e).__name__
+    if blocks:
+        n = 1
+        while n < len(blocks) and blocks[n] == blocks[0]: n += 1
+        ev['bhead'] = dict(b=B(blocks[0]), n=n); ev['brest'] = [B(x) for x in blocks[n:n + 8]]
+        n = 1
+        while n < len(cnts) and cnts[n] == cnts[0] + n * 8 * Bb: n += 1
+        ev['chead'] = dict(first=limbs(cnts[0], 8), n=n); ev['crest'] = [limbs(x, 8) for x in cnts[n:n + 8]]
     ev['after'] = dict(bitcnt=limbs(obj.bitcnt, 8), padcnt=int(obj.padcnt), padflag=bool(obj.padflag))
     return ev
 
@@ -172,6 +196,10 @@ def malformed(s, var, rnd, k):
         ev.append(run_remove(obj, bytes(c)))
     return dict(sch=sch, ev=ev, scen=dict(kind='malformed', scheme=s))
 
+def bits_here(e):
+    if e['bitlen'] >= 0: return e['bitlen']
+    return 8 * len(e['m']) if e['op'] == 'iter' else 8 * (len(e['pat']) * e['K'] + len(e['tail']))
+
 def classify(ctx, tr, bad):
     sch = tr['sch']
     failed_before = []                 # entry points with a failed clause earlier in this trace (knock-on effects)
@@ -181,14 +209,14 @@ def classify(ctx, tr, bad):
         before = 0; flag = False
         for p in tr['ev'][:rec['step'] - 1]:
             if p['op'] == 'reset': before = 0; flag = False
-            elif p['op'] == 'iter' and not p['raised'] and not flag:
-                L = 8 * len(p['m']) if p['bitlen'] < 0 else p['bitlen']
+            elif p['op'] in ('iter', 'iterlong') and not p['raised'] and not flag:
+                L = bits_here(p)
                 before += L
                 if p['padding']: flag = True
         for cl in rec['bad']:
-            if e['op'] == 'iter':
-                L = 8 * len(e['m']) if e['bitlen'] < 0 else e['bitlen']
-                attrs = dict(scheme=sch['s'], clause=cl['c'], padding=e['padding'], empty_piece=(len(e['m']) == 0),
+            if e['op'] in ('iter', 'iterlong'):
+                L = bits_here(e)
+                attrs = dict(scheme=sch['s'], clause=cl['c'], padding=e['padding'], empty_piece=(L == 0 and len(e.get('m', e.get('tail'))) == 0),
                              bits_before=before, bits_here=L, after_pad=flag, raised=e['raised'])
                 if any(p['op'] == 'preset' for p in tr['ev'][:rec['step']]): attrs['preset_counter'] = True
                 api = 'padding.%s.iterblocks' % sch['s']
@@ -215,6 +243,7 @@ def run(ctx):
         if (not big) and cfg in ('MC_Padding_x923', 'MC_Padding_blake0'): continue
         ctx.model_check('mc/MC_Padding.tla', 'mc/%s.cfg' % cfg, what=cfg, env={'MAXBITS': '14' if big else '12'})
     ctx.model_check('mc/MC_PadBytes.tla', what='MC_PadBytes (byte-level spec = bit-level spec)')
+    ctx.model_check('mc/MC_PadLong.tla', 'mc/MC_PadLong.cfg', what='MC_PadLong (compressed evaluation of pat^K + tail = plain evaluation)')
     ctx.exhaustive_subspaces.append('specification: every bit string up to 12 bits (B=8 bits) for none/zero/iso/pkcs7/x923, all call sequences incl. reset; md/sha/blake B=16,W=4 up to 40 bits in 4 content classes')
     # ---- 2. all call histories from the model -------------------------------------------------
     D = 4 if big else 3
@@ -252,6 +281,26 @@ def run(ctx):
             obj, sch = make(s, *var); n = 4096 + Bb * 5 + (0 if s == 'none' else 2); n -= (n % Bb) if s == 'none' else 0
             e = run_iter(obj, content(rnd, n, 0), None, True)
             traces.append(dict(sch=sch, ev=[e], scen=dict(kind='long single call', scheme=s, n=n)))
+    # messages of 64 KiB .. 1 MiB: K copies of one block + a short tail, judged in compressed form (PadBytes!IterLong; MC_PadLong)
+    for s in SCHEMES:
+        for var in variants(s, False):
+            _, sch = make(s, *var); Bb = sch['B']
+            sizes = [65536 + 8] if Bb < 8 else [65536, (1 << 20)] + ([3 * (1 << 19), 4096 * 5] if big else [])
+            for size in sizes:
+                K = size // Bb
+                for q, res in enumerate(sorted({0, 1 % Bb, rc_residue(sch, 3), rc_residue(sch, 4), Bb - 1, Bb + 1} if Bb > 1 else {0, 1, 2})):
+                    if s == 'none' and res % Bb: res = (res // Bb) * Bb
+                    pat = [bytes(Bb), content(rnd, Bb, 0), b'\xff' * Bb][q % 3]
+                    tail = content(rnd, res, (q + K) % 7)
+                    bo = (q * 3 + 1) % 8 if (s in BITGRAN and res > 0 and q % 2) else 0
+                    bitlen = (8 * (K * Bb + res) - bo) if (bo or q % 3 == 0) else None
+                    obj, _ = make(s, *var)
+                    ev = [run_iter_long(obj, Bb, pat, K, tail, bitlen, True)]
+                    if q == 0:                                                      # the same as a continuation of whole blocks + a final piece, on a fresh object
+                        obj2, _ = make(s, *var)
+                        ev2 = [run_iter_long(obj2, Bb, pat, K, b'', None, False), run_iter_long(obj2, Bb, pat, 0, tail + content(rnd, 3 if s != 'none' else 0, 0), None, True)]
+                        traces.append(dict(sch=sch, ev=ev2, scen=dict(kind='long continuation + final', scheme=s, K=K)))
+                    traces.append(dict(sch=sch, ev=ev, scen=dict(kind='long message', scheme=s, K=K, res=res, bo=bo)))
     # generators created up-front and consumed later, in order: each call takes effect when it is consumed
     for s in SCHEMES:
         var = variants(s, False)[-1]; obj, sch = make(s, *var); Bb = sch['B']
